@@ -167,6 +167,13 @@ def invalidPid (net : Net) : Op → Bool
     (lookup net.peers pid).isNone
   | _ => false
 
+/-- the call is neither an API call on peer `pid` nor a `send_connless` to address `a`: nothing by
+which the application itself addresses that peer / that address -/
+def quietFor (a pid : Nat) : Op → Bool
+  | .accept p | .reject p _ | .disconnect p _ | .ignore p | .send p _ _ | .flush p => p != pid
+  | .sendConnless addr _ => addr != a
+  | _ => true
+
 /-- the hypothesis of C20 for one operation: `Net::connect` is not called for an address that has
 a live peer (nothing else can give an address a second peer) -/
 def opOk (net : Net) : Op → Bool
